@@ -27,7 +27,7 @@ RULE = (
     "non-refresh step and the optimizer has >= 2 blocks. groups stream: non-trivial = >= 2 groups whose hyperparameters differ and "
     ">= 2 steps. Distinct = distinct canonical JSON of the whole history."
 )
-BOUNDS = "orders 0-4, numel <= 300 per parameter, <= 4 parameters per group (possibly of different dtypes), <= 3 groups, <= 12 (quick) / 30 (thorough) steps incl. rollbacks into the live optimizer; long_history: tiny models, <= 70 / 150 steps"
+BOUNDS = "orders 0-4, numel <= 300 per parameter, <= 4 parameters per group (possibly of different dtypes, possibly frozen), <= 3 groups, <= 12 (quick) / 30 (thorough) steps incl. rollbacks into the live optimizer; long_history: tiny models, <= 70 / 150 steps; late_start: start_preconditioning_step 257-1030, up to 1160 checked steps"
 TOLERANCES = (
     f"||actual - predicted||_F <= {rm.K_TOL} * running first-order rounding bound (refmodel.py); inverse roots: {rm.INV_C}*n*u*kappa + "
     f"bias-correction and float32-exponent terms, skipped as uninformative when the bound exceeds {rm.UNINFORMATIVE}"
